@@ -1,0 +1,27 @@
+//go:build verif
+
+package priority
+
+// VerifSnapshot returns copies of the scheduling state for the verification
+// harness. It must only be called while the discipline's goroutine is blocked
+// (the harness calls it after synctest.Wait()).
+func (dsc *Discipline[Type]) VerifSnapshot() (priorities []uint, actual, strategic, tactic map[uint]uint) {
+	priorities = append([]uint(nil), dsc.priorities...)
+	actual = make(map[uint]uint, len(dsc.actual))
+	strategic = make(map[uint]uint, len(dsc.strategic))
+	tactic = make(map[uint]uint, len(dsc.tactic))
+
+	for key, value := range dsc.actual {
+		actual[key] = value
+	}
+
+	for key, value := range dsc.strategic {
+		strategic[key] = value
+	}
+
+	for key, value := range dsc.tactic {
+		tactic[key] = value
+	}
+
+	return priorities, actual, strategic, tactic
+}
